@@ -195,6 +195,21 @@ func execute(pr *pair, env *stateEnv, id *caseID) *verdict {
 			if r.Send.Hash == probe.Hash && r.Inserted {
 				probeReceived = true
 			}
+			if !r.failed() && r.Inserted && r.Exec != nil && r.Exec.ReturnedError != nil && r.Exec.Transaction != nil && r.Send.Hash != probe.Hash &&
+				types.IsEmbeddedAddress(r.Send.ToAddress) && r.Send.Amount.Sign() > 0 {
+				// a later entry (typically a call one contract made to another while executing the call under test) failed in
+				// the callee: it is an accepted send to an embedded contract like any other, so its amount must go back to
+				// its sender - whoever that is - in one descendant block
+				ds := r.Exec.Transaction.Block.DescendantBlocks
+				ok := len(ds) == 1 && ds[0].BlockType == nom.BlockTypeContractSend && ds[0].ToAddress == r.Send.Address &&
+					ds[0].Amount.Cmp(r.Send.Amount) == 0 && ds[0].TokenStandard == r.Send.TokenStandard
+				if !ok {
+					to := contractNameOf(r.Send.ToAddress)
+					v.violate("downstream:"+to+":failed-call-not-refunded", fmt.Sprintf("after the call, the %s contract received send %v from %v (amount %v %v, data %x); the method failed (%v) and the receive block has %d descendant blocks, none of which returns exactly that amount to the sender",
+						to, r.Send.Hash, r.Send.Address, r.Send.Amount, r.Send.TokenStandard, r.Send.Data, r.Exec.ReturnedError, len(ds)))
+					return v
+				}
+			}
 			if r.failed() || !r.Inserted {
 				to := contractNameOf(r.Send.ToAddress)
 				what := fmt.Sprintf("after the call, the producer cannot process the next entry of the %s inbox (send %v from %v, data %x): %s insert=%v", to, r.Send.Hash, r.Send.Address, r.Send.Data, r.describe(), r.InsErr)
